@@ -181,6 +181,28 @@ def run(tier, seed, ev):
                 ev.cls((cls, os.path.basename(f).split("_")[0] if cls not in ("extreme", "manydec") else os.path.basename(f), kind))
         res = TR.run_sharded(rdrv, jobs, sc, "w", timeout=900, cpu_limit=40 if tier == "quick" else 900)
         viols, good = TR.validate_all("Trace_Reader", "Trace_Reader_work", res, ev, "C13", xmx="6g")
+        # a source that starts failing (read: -1, skip: 0) after k callbacks and goes on failing: every call still returns.  Only the
+        # step budget and the driver's end are looked at here - what the members are after a source error is not a listed property
+        ej = []
+        for fi, (f, cls) in enumerate(files):
+            if cls in ("trunc", "mutated") or f not in truths or os.path.getsize(f) > 20000 or len(truths[f]) < 2:
+                continue
+            for kind in ("cbns", "cb"):
+                for k in sorted(set([1, 2, 3, 5, 8] + [rng.randrange(1, 60) for _ in range(4)])):
+                    ops = []
+                    for _ in range(len(truths[f]) + 2):
+                        ops += ["N"] + rng.choice([[], [], ["R10"], ["C"], ["A4096"]])
+                    ej.append("exec - %s %sE%d eod - 0 m %s" % (f, kind, k, ",".join(ops)))
+        eres = TR.run_sharded(rdrv, ej, sc, "e", timeout=600, cpu_limit=40)
+        for jf, tr, n, p in eres:
+            spun = any(l.startswith('{"e":"Budget"') for l in open(tr))
+            if p.returncode != 0 or spun:
+                d = V.replay_dir("C13", "srcerr-" + os.path.basename(jf))
+                shutil.copy(jf, os.path.join(d, "jobs.txt"))
+                open(os.path.join(d, "stderr.txt"), "wb").write(p.stderr or b"")
+                viols.append({"replay": d, "msg": "with a source that fails for good after k callbacks a call did not return (step budget exhausted: %s, driver exit %s) in %s"
+                                                  % (spun, p.returncode, os.path.basename(jf))})
+        ev.set("source_error_executions", len(ej))
         # every command of the tool returns: the overwrite prompt with every sequence of up to two answers and with input that stops
         # at, or in the middle of, an answer (TreeModel!Ask: end of input at the prompt ends the tool) - a run stopped by the harness'
         # CPU / output limits is an event no action matches
